@@ -6,7 +6,7 @@ from props._cc import has, base_classes, outcome
 PROP = 'C15'
 LEVEL = 'exploration'
 RULE = ("cases = all 12 decorators x maxsize x purge x backend x history of calls (some raising), load/dump (keyed or not), clear, "
-        "clear(keepstats=True), archive toggles, direct archive writes. Oracle per completed call: exactly one of hit/miss/load moves by one, "
+        "clear(keepstats=True), archive toggles, direct archive writes and deletions, the archive replaced through f.archive(obj). Oracle per completed call: exactly one of hit/miss/load moves by one, "
         "chosen from the observed pre-state (resident => hit; else archived and in archive => load; else miss and exactly one evaluation); "
         "raising calls move nothing; hit+miss+load == completed calls since last reset; size == resident entries; maxsize == configured bound; "
         "re-entrant functions (calling their own decorated self, also with the same arguments) keep miss == evaluations and the sum == completed calls; clear() => empty + zeros; clear(keepstats) => empty + unchanged. non-trivial = history shows hit, miss and load and at least one reset; "
@@ -144,7 +144,7 @@ def _strata(tier):
     return G.strata_grid(
         maxsizes=(2, 1, 3, 5, 0, None),
         weights={'call': 14, 'burst': 1, 'load': 2, 'dump': 1, 'dumpk': 1, 'loadk': 1, 'clear': 2, 'clearkeep': 2,
-                 'arch_off': 1, 'arch_on': 1, 'awrite': 2, 'arch_query': 1},
+                 'arch_off': 1, 'arch_on': 1, 'awrite': 2, 'arch_query': 1, 'reattach': 2, 'adel': 1},
         max_ops=30 if tier == 'quick' else 60, pool=(3, 7), attach_later_pct=12, prefill_pct=30,
         raising_pct=12)
 
